@@ -13,6 +13,13 @@
 //! accept loops (`serve_listener`, `serve_listener_with_graceful_drain`) for the
 //! handshake-failure, drain and drain-deadline-abort rows.
 //!
+//! Further entry points of src/websocket_server.rs driven by the same machinery:
+//! `adopt_upgraded_partially_read` (in memory, the client's pipelined bytes split
+//! between `buffered` and the stream), `serve_listener_with_shutdown` /
+//! `serve_with_shutdown` whose shutdown future resolves while connections live,
+//! `serve` / `serve_with_graceful_drain` by address, and the co-hosting accept
+//! helpers followed by their `serve_connection*` (all in `c15_tcp.rs`).
+//!
 //! Every wait is for a predicted positive event (a log entry, a frame, a task
 //! completion) under a watchdog; nothing is synchronised by sleeping.
 //!
@@ -20,7 +27,8 @@
 //!  * both disconnect hooks ran exactly once, in registration order, after the
 //!    last connect hook, and not before the harness started ending the connection
 //!    (an off-reader panic does not end it: the next request is served with the
-//!    peer still registered); zero times for a failed handshake;
+//!    peer still registered); zero times for a failed handshake, and zero times
+//!    for a connection attempt made after a `*_with_shutdown` loop returned;
 //!  * `PeerRegistry::get` / `get_by(alias)` find the peer inside every handler
 //!    that runs before the disconnect hooks, and no longer after the serving
 //!    future finished nor inside a handler that outlived the connection;
@@ -594,6 +602,28 @@ pub(crate) struct Counters {
     pub tcp_events: u64,
     pub tcp_wire_order_checked: u64,
     pub tcp_notifies_on_wire: u64,
+    // ---- entry points added later (partially-read adoption, *_with_shutdown resolving
+    //      mid-life, address-taking loops, co-hosting accept helpers)
+    /// prefix kind -> connections adopted through `adopt_upgraded_partially_read`
+    pub partial_prefix: BTreeMap<String, u64>,
+    pub partial_adoptions: u64,
+    pub partial_bytes_handed_over: u64,
+    pub partial_bytes_left_on_stream: u64,
+    pub partial_prefix_ends_inside_a_frame: u64,
+    pub addr_bind_retries: u64,
+    pub addr_probe_connects: u64,
+    pub addr_connect_retries: u64,
+    pub attempts_after_loop_returned: u64,
+    pub attempts_after_loop_returned_refused: u64,
+    pub shutdown_with_inline_parked: u64,
+    pub shutdown_with_hook_parked: u64,
+    pub shutdown_with_off_parked: u64,
+    pub shutdown_with_idle: u64,
+    pub shutdown_loops_returned: u64,
+    pub live_when_loop_returned: u64,
+    pub served_after_loop_returned: u64,
+    pub accept_helper_returned_ok: u64,
+    pub accept_helper_returned_err: u64,
 }
 
 fn bump(m: &mut BTreeMap<String, u64>, k: impl Into<String>) {
@@ -635,6 +665,25 @@ impl Counters {
         self.tcp_events += o.tcp_events;
         self.tcp_wire_order_checked += o.tcp_wire_order_checked;
         self.tcp_notifies_on_wire += o.tcp_notifies_on_wire;
+        mm(&mut self.partial_prefix, &o.partial_prefix);
+        self.partial_adoptions += o.partial_adoptions;
+        self.partial_bytes_handed_over += o.partial_bytes_handed_over;
+        self.partial_bytes_left_on_stream += o.partial_bytes_left_on_stream;
+        self.partial_prefix_ends_inside_a_frame += o.partial_prefix_ends_inside_a_frame;
+        self.addr_bind_retries += o.addr_bind_retries;
+        self.addr_probe_connects += o.addr_probe_connects;
+        self.addr_connect_retries += o.addr_connect_retries;
+        self.attempts_after_loop_returned += o.attempts_after_loop_returned;
+        self.attempts_after_loop_returned_refused += o.attempts_after_loop_returned_refused;
+        self.shutdown_with_inline_parked += o.shutdown_with_inline_parked;
+        self.shutdown_with_hook_parked += o.shutdown_with_hook_parked;
+        self.shutdown_with_off_parked += o.shutdown_with_off_parked;
+        self.shutdown_with_idle += o.shutdown_with_idle;
+        self.shutdown_loops_returned += o.shutdown_loops_returned;
+        self.live_when_loop_returned += o.live_when_loop_returned;
+        self.served_after_loop_returned += o.served_after_loop_returned;
+        self.accept_helper_returned_ok += o.accept_helper_returned_ok;
+        self.accept_helper_returned_err += o.accept_helper_returned_err;
     }
 }
 
@@ -956,7 +1005,12 @@ pub(crate) fn variant_from_json(v: &Value) -> Result<Variant, String> {
 }
 
 fn mem_sc(variant: Variant, conns: Vec<Cell>, shared_token: bool, reverse_end: bool) -> Scenario {
-    Scenario::Mem(mem::MemScenario { variant, conns, shared_token, reverse_end })
+    Scenario::Mem(mem::MemScenario { prefix: None, variant, conns, shared_token, reverse_end })
+}
+
+/// the same, adopted through `adopt_upgraded_partially_read`
+fn mem_partial(prefix: mem::Prefix, variant: Variant, conns: Vec<Cell>, reverse_end: bool) -> Scenario {
+    Scenario::Mem(mem::MemScenario { prefix: Some(prefix), variant, conns, shared_token: false, reverse_end })
 }
 
 fn enumerate(tier: Tier, skipped: &mut BTreeMap<String, u64>) -> Vec<Scenario> {
@@ -1034,6 +1088,44 @@ fn enumerate(tier: Tier, skipped: &mut BTreeMap<String, u64>) -> Vec<Scenario> {
     for &n in ns {
         for c in &full {
             v.push(mem_sc(Variant::CancelHandshake, vec![*c; n], true, false));
+        }
+    }
+    // (4b) `adopt_upgraded_partially_read` as the adopting call: the first k bytes the client
+    //      pipelined with the upgrade are handed over as `buffered`, the rest stays on the stream
+    {
+        use mem::PREFIXES;
+        // every cell x every prefix on the entry point that has every cell
+        for c in &full {
+            for &p in &PREFIXES {
+                v.push(mem_partial(p, Variant::CancelHandshake, vec![*c], false));
+            }
+        }
+        // the other serve_connection* variants: quick rotates the prefix over the cells
+        for &variant in &[Variant::Plain, Variant::Handshake, Variant::Cancel] {
+            for (i, c) in cells(variant.has_token(), variant.has_handshake()).iter().enumerate() {
+                match tier {
+                    Tier::Quick => v.push(mem_partial(PREFIXES[i % PREFIXES.len()], variant, vec![*c], false)),
+                    Tier::Thorough => {
+                        for &p in &PREFIXES {
+                            v.push(mem_partial(p, variant, vec![*c], false));
+                        }
+                    }
+                }
+            }
+        }
+        // two connections: quick a covering selection of ordered pairs, thorough every ordered pair
+        for (i, a) in full.iter().enumerate() {
+            match tier {
+                Tier::Quick => {
+                    let j = (i * 7 + 3) % full.len();
+                    v.push(mem_partial(PREFIXES[(i + 1) % PREFIXES.len()], Variant::CancelHandshake, vec![*a, full[j]], i % 2 == 1));
+                }
+                Tier::Thorough => {
+                    for (j, b) in full.iter().enumerate() {
+                        v.push(mem_partial(PREFIXES[(i + 2 * j) % PREFIXES.len()], Variant::CancelHandshake, vec![*a, *b], (i + j) % 2 == 1));
+                    }
+                }
+            }
         }
     }
     // (5) the built-in accept loops over loopback TCP
@@ -1164,11 +1256,39 @@ pub fn run(tier: Tier) -> ! {
             ("offpanic_survived", c.offpanic_survived),
             ("drain_returned_with_parked_handler", c.drain_returned_with_parked_handler),
             ("drain_aborted_stragglers", c.drain_aborted_stragglers),
+            ("partial_adoptions", c.partial_adoptions),
+            ("partial_bytes_handed_over", c.partial_bytes_handed_over),
+            ("partial_bytes_left_on_stream", c.partial_bytes_left_on_stream),
+            ("partial_prefix_ends_inside_a_frame", c.partial_prefix_ends_inside_a_frame),
+            ("shutdown_loops_returned", c.shutdown_loops_returned),
+            ("live_when_loop_returned", c.live_when_loop_returned),
+            ("served_after_loop_returned", c.served_after_loop_returned),
+            ("shutdown_with_idle", c.shutdown_with_idle),
+            ("shutdown_with_inline_parked", c.shutdown_with_inline_parked),
+            ("shutdown_with_off_parked", c.shutdown_with_off_parked),
+            ("shutdown_with_hook_parked", c.shutdown_with_hook_parked),
+            ("attempts_after_loop_returned_refused", c.attempts_after_loop_returned_refused),
+            ("addr_probe_connects", c.addr_probe_connects),
+            ("accept_helper_returned_ok", c.accept_helper_returned_ok),
+            ("accept_helper_returned_err", c.accept_helper_returned_err),
         ];
         for (k, n) in need {
             if n == 0 {
                 ctx.machinery(format!("vacuous: counter {k} is 0"));
             }
+        }
+        for p in mem::PREFIXES {
+            if c.partial_prefix.get(&format!("{p:?}")).copied().unwrap_or(0) == 0 {
+                ctx.machinery(format!("vacuous: no connection was adopted with prefix {p:?}"));
+            }
+        }
+        for ep in tcp::entry_points() {
+            if !c.via.keys().any(|k| k.contains(ep.as_str())) {
+                ctx.machinery(format!("vacuous: entry point {ep} never served a connection"));
+            }
+        }
+        if c.attempts_after_loop_returned != c.shutdown_loops_returned {
+            ctx.machinery(format!("{} accept loops returned on their shutdown future but {} connection attempts were made afterwards", c.shutdown_loops_returned, c.attempts_after_loop_returned));
         }
         for outcome in ["ok", "err", "panicked", "aborted"] {
             if !c.served.keys().any(|k| k.ends_with(outcome)) {
@@ -1178,6 +1298,27 @@ pub fn run(tier: Tier) -> ! {
     }
     let mut shapes: Vec<(&String, &u64)> = c.log_shapes.iter().collect();
     shapes.sort_by(|a, b| b.1.cmp(a.1).then(a.0.cmp(b.0)));
+    let nv_partial = json!({
+        "connections": c.partial_adoptions,
+        "by_prefix": c.partial_prefix,
+        "bytes_handed_over_as_buffered": c.partial_bytes_handed_over,
+        "bytes_left_on_the_stream": c.partial_bytes_left_on_stream,
+        "prefix_ended_inside_a_websocket_frame": c.partial_prefix_ends_inside_a_frame,
+    });
+    let nv_shutdown = json!({
+        "accept_loops_returned": c.shutdown_loops_returned,
+        "connections_idle_at_that_moment": c.shutdown_with_idle,
+        "with_inline_handler_parked": c.shutdown_with_inline_parked,
+        "with_off_reader_handler_parked": c.shutdown_with_off_parked,
+        "with_connect_hook_parked": c.shutdown_with_hook_parked,
+        "connections_alive_when_the_loop_returned": c.live_when_loop_returned,
+        "requests_answered_after_the_loop_returned": c.served_after_loop_returned,
+        "connection_attempts_after_the_loop_returned": c.attempts_after_loop_returned,
+        "of_which_not_upgraded": c.attempts_after_loop_returned_refused,
+    });
+    let nv_addr = json!({"servers_found_listening_by_probe_connection": c.addr_probe_connects});
+    let nv_accept = json!({"returned_ok_and_served": c.accept_helper_returned_ok, "returned_err_nothing_served": c.accept_helper_returned_err});
+    let nv_timing = json!({"events_logged": c.tcp_events, "wire_order_decided": c.tcp_wire_order_checked, "both_connect_notifies_seen_on_wire": c.tcp_notifies_on_wire, "addr_rows_connect_retries_before_the_server_listened": c.addr_connect_retries, "addr_rows_bind_failures_retried_on_another_port": c.addr_bind_retries});
     let coverage = json!({
         "evaluations": c.connections,
         "distinct_nontrivial": c.log_shapes.len(),
@@ -1187,11 +1328,12 @@ pub fn run(tier: Tier) -> ! {
         "events_logged": c.events,
         "exhaustive": !stopped && executed == scenarios.len() as u64,
         "stopped_early_after_violations": stopped,
-        "rule": "every exit cause x connection phase cell on each of the four in-memory entry points (1 connection), every ordered pair of cells (2 connections, both ending orders), triples (quick: every triple of causes with phases from a fixed covering rule; thorough: every triple of cells), N same-cell connections under one shared ShutdownToken, plus the built-in accept loops over loopback TCP (handshake failures x good connections, graceful drain with generous / zero / short deadline x phases x 1..3 connections); each scenario is executed on the real server and decided against the event-log model",
+        "rule": "every exit cause x connection phase cell on each of the four in-memory entry points (1 connection), every ordered pair of cells (2 connections, both ending orders), triples (quick: every triple of causes with phases from a fixed covering rule; thorough: every triple of cells), N same-cell connections under one shared ShutdownToken, plus the built-in accept loops over loopback TCP (handshake failures x good connections, graceful drain with generous / zero / short deadline x phases x 1..3 connections); the same cells adopted through adopt_upgraded_partially_read with the first k bytes of the client's pipelined frames (k = 0, 1, 2, the whole first frame, the first frame and half of the second) handed over as `buffered` and the rest left on the stream; serve_listener_with_shutdown / serve_with_shutdown(addr) whose shutdown future resolves while 1..3 accepted connections are in their phases (the loop returns, one more connection attempt is made, connections with a free reader answer one more request, then every connection is ended by its own cause while the server runtime is kept alive by a second stop signal); serve(addr) and serve_with_graceful_drain(addr) as their listener twins on a port reserved by bind(0)+drop; the six co-hosting accept helpers inside a harness-owned accept loop, each followed by its serve_connection* call, for good handshakes (own-cause cells incl. the embedder's cancel and abort) and every failing handshake kind; each scenario is executed on the real server and decided against the event-log model",
         "alphabet": {
             "causes": CAUSES.iter().map(name).collect::<Vec<_>>(),
             "phases": PHASES.iter().map(name).collect::<Vec<_>>(),
-            "entry_points": ["serve_connection", "serve_connection_with_handshake", "serve_connection_with_cancel", "serve_connection_with_cancel_and_handshake", "serve_listener (TCP)", "serve_listener_with_graceful_drain (TCP)"],
+            "entry_points": ["adopt_upgraded", "adopt_upgraded_partially_read", "serve_connection", "serve_connection_with_handshake", "serve_connection_with_cancel", "serve_connection_with_cancel_and_handshake", "serve_listener (TCP)", "serve_listener_with_graceful_drain (TCP)", "serve_listener_with_shutdown (TCP)", "serve (TCP, addr)", "serve_with_shutdown (TCP, addr)", "serve_with_graceful_drain (TCP, addr)", "WebSocketServer::accept / accept_with_limits / accept_with_handshake / accept_with_handshake_and_limits (TCP)", "SharedWebSocketServer::accept / accept_with_handshake (TCP)"],
+            "partially_read_prefixes": mem::PREFIXES.iter().map(name).collect::<Vec<_>>(),
             "hooks": "C1, D1, with_peer_registry, C2 (queues 2 notifies), H (alias from the handshake), D2",
         },
         "bound": {"connections_per_scenario": tier.pick(json!([1, 2, 3, 4]), json!([1, 2, 3, 8, 32])), "tcp": tcp::bound(tier)},
@@ -1217,7 +1359,11 @@ pub fn run(tier: Tier) -> ! {
             "drain_deadline_aborted_stragglers": c.drain_aborted_stragglers,
             "connections_with_responses_undelivered_at_drain_abort": c.undelivered_at_abort,
             "distinct_per_connection_event_shapes": c.log_shapes.len(),
-            "tcp_rows_timing_dependent": {"events_logged": c.tcp_events, "wire_order_decided": c.tcp_wire_order_checked, "both_connect_notifies_seen_on_wire": c.tcp_notifies_on_wire},
+            "tcp_rows_timing_dependent": nv_timing,
+            "partially_read_adoptions": nv_partial,
+            "shutdown_future_resolved_mid_life": nv_shutdown,
+            "address_taking_loops": nv_addr,
+            "accept_helpers": nv_accept,
         },
         "most_common_event_shapes": shapes.iter().take(8).map(|(k, n)| json!({"shape": k, "connections": n})).collect::<Vec<_>>(),
         "sweep_wall_s": (wall * 1000.0).round() / 1000.0,
@@ -1232,7 +1378,10 @@ pub fn run(tier: Tier) -> ! {
             "registry samples taken inside connect/disconnect hooks are model-specific and only produce notes; samples inside handlers and after the serving future decide",
             "an inline handler can never be running when its own connection's disconnect hooks fire (it occupies the reader task), so the cancellation clause is decided on off-reader handlers; inline observations of an embedder cancel are reported as a counter/note",
             "TCP rows: a zero drain deadline is one timer tick (<= 1 ms), so only connections that cannot finish at once (blocked writer, parked inline callback) are aborted by the accept loop; the short-deadline rows assume cancel processing (microseconds) finishes within 150 ms, and the outbound rows assume the kernel cannot buffer 2 x tcp_wmem_max + 8 MiB of responses for a peer with a 4 KiB receive buffer; no verdict depends on these, only which path is taken",
-            "an abort that lands while the serving future is idle in its reader select is reachable only for an embedder that aborts its own serve_connection task; that row is decided in memory (cause Abort)",
+            "an abort that lands while the serving future is idle in its reader select is reachable only for an embedder that aborts its own serve_connection task; that row is decided in memory (cause Abort) and in the harness-owned accept loop of the accept-helper rows",
+            "partially-read rows: the split point is computed from the byte offsets after each pipelined client frame; while the connect hook is parked the pipelined frames are WebSocket Pings (no handler runs, so no handler races the exit cause)",
+            "the rows added for serve_listener_with_shutdown, the address-taking loops and the accept helpers listen on a loopback address of their own (127.x.y.z per scenario); the connection attempt after a loop returned is a complete valid upgrade request; a listener that still answered it would be reported as harness trouble, its hooks are judged only by 'never for a connection whose handshake failed'",
+            "address-taking rows: the port is reserved by bind(0)+drop; the server is awaited by a connect-retry probe whose early close our server reports through on_error; a bind failure makes the server thread reserve and announce another port (never a verdict)",
         ],
     )
 }
